@@ -18,6 +18,9 @@ func init() {
 // amount returns the numeric argument: lengths {0,1,8,9} (quick) so that zero, one-byte,
 // 2^64-1 and multi-word values are in range; every length 0..16 (thorough).
 func amount(tag string) []byte {
+	if small {
+		return verif.Bytes(tag, 1)
+	}
 	if verif.Thorough() {
 		return verif.BytesLen(tag, 0, 16)
 	}
@@ -25,6 +28,9 @@ func amount(tag string) []byte {
 }
 
 func tokenID(tag string) []byte {
+	if small {
+		return verif.Bytes(tag, 2)
+	}
 	if verif.Thorough() {
 		return verif.BytesLen(tag, 0, 3)
 	}
